@@ -238,10 +238,11 @@ template <typename T, uint32_t Flags> struct OpsImpl {
     const T& v = static_cast<const H*>(p)->get();
     switch (s.kind) {
       case W_LOG: return Any::write(&s.log, v);
-      case W_BUFFER: return Plain::write(&s.bw, v);
       case W_PEDANTIC: return Plain::write(&s.pw, v);
-      case W_CONSTEXPR: return Cx::write(&s.cw, v);
       case W_STREAM: return Plain::write(s.sw.get(), v);
+#ifndef VF_OPS_FEW
+      case W_BUFFER: return Plain::write(&s.bw, v);
+      case W_CONSTEXPR: return Cx::write(&s.cw, v);
       case W_FD: return Fd::write(s.fw.get(), v);
       case W_B_PEDANTIC: return Plain::write(&s.bpw, v);
       case W_B_BUFFER: return Plain::write(&s.bbw, v);
@@ -249,6 +250,8 @@ template <typename T, uint32_t Flags> struct OpsImpl {
       case W_B_STREAM: return Plain::write(&s.bsw, v);
       case W_B_CONSTEXPR: return Cx::write(&s.bcw, v);
       case W_B_FD: return Fd::write(&s.bfw, v);
+#endif
+      default: break;
     }
     return nop::ErrorStatus::DebugError;
   }
@@ -260,13 +263,16 @@ template <typename T, uint32_t Flags> struct OpsImpl {
       case R_PEDANTIC: return Plain::read(&s.pr, v);
       case R_STREAM: return Plain::read(s.sr.get(), v);
       case R_CHUNKED: return Plain::read(s.cr.get(), v);
-      case R_FD: return Fd::read(s.fr.get(), v);
       case R_B_PEDANTIC: return Plain::read(&s.bpr, v);
+#ifndef VF_OPS_FEW
+      case R_FD: return Fd::read(s.fr.get(), v);
       case R_B_BUFFER: return Plain::read(&s.bbr, v);
       case R_B_LOG: return Any::read(&s.blr, v);
       case R_B_STREAM: return Plain::read(&s.bsr, v);
       case R_B_CHUNKED: return Plain::read(&s.bcr, v);
       case R_B_FD: return Fd::read(&s.bfr, v);
+#endif
+      default: break;
     }
     return nop::ErrorStatus::DebugError;
   }
